@@ -77,7 +77,7 @@ MutWhat(r) == IF r.mut.op = "cell" THEN Norm(r.mut.path) ELSE r.mut.meth
 MutateVerdicts(r) ==
     LET other == IF r.mut.side = "c" THEN "o" ELSE "c"
         mine == r.mut.side
-    IN  (IF r.exc = "NoSuchCell" THEN {Bad("mutate.nocell", MutWhat(r), r.exc)}       \* the cell is not there on that side
+    IN  (IF r.exc = "NoSuchCell" THEN {Bad("mutate.nocell", IF r.mut.op = "cell" THEN LastName(r.mut.path) ELSE r.mut.meth, r.exc)}       \* the cell is not there on that side
          ELSE IF r.exc # "" THEN {Bad("mutate.raised", MutWhat(r), r.exc)} ELSE {})
         \cup (IF r.ed[1] # r.ed[2]
               THEN {Bad("frame.export", MutWhat(r), [side |-> other, changed |-> r.edelta])} ELSE {})
@@ -87,12 +87,14 @@ MutateVerdicts(r) ==
 (* ---- k = "binop" ------------------------------------------------------------ *)
 OpWhat(r) == r.f \o " " \o r.lt \o " " \o r.rt
 BinopVerdicts(r) ==
-    (IF <<r.f, r.lt, r.rt>> \notin OpTable THEN {Bad("binop.unknown", OpWhat(r), 0)} ELSE {})
+    (IF <<r.f, r.lt, r.rt>> \notin OpTable /\ r.f # "collapse_one" THEN {Bad("binop.unknown", OpWhat(r), 0)} ELSE {})
     \cup (IF r.exc # "" THEN {Bad("binop.raised", OpWhat(r), r.exc)} ELSE {})
     \cup (IF r.a_before # r.a_after THEN {Bad("binop.left", OpWhat(r), [before |-> r.a_before, after |-> r.a_after])} ELSE {})
     \cup (IF r.b_before # r.b_after THEN {Bad("binop.right", OpWhat(r), [before |-> r.b_before, after |-> r.b_after])} ELSE {})
     \cup (IF r.shared # <<>> THEN {Bad("binop.fresh", OpWhat(r), r.shared)} ELSE {})
-    \cup (IF r.lt = "Keyvalues" /\ r.exc = "" /\ r.res # r.a_flat \o r.b_flat
+    \* block + items = the block's children followed by the items (a named block on the right is, as
+    \* documented, appended as one item: b_flat then lists it as that item)
+    \cup (IF r.lt \in {"Keyvalues", "KVRoot"} /\ r.exc = "" /\ r.res # r.a_flat \o r.b_flat
           THEN {Bad("binop.result", OpWhat(r), r.a_flat \o r.b_flat)} ELSE {})
 
 Verdicts(r) == CASE r.k = "copy" -> CopyVerdicts(r)
